@@ -625,7 +625,16 @@ pub fn replay(def: &'static ThreadScenDef, cfg: &Cfg, trace: &Trace) -> (Vec<Fai
     (fail.unwrap_or_default(), h.get())
 }
 
-/// Schedule minimisation: truncate the tail (fallback = lowest runnable id), zero the draws.
+/// Executes run `run` of seed `seed` once and returns its recorded trace and failures.
+pub fn record_one(def: &'static ThreadScenDef, seed: u64, run: u64) -> (Trace, Vec<Fail>) {
+    let shared = Arc::new(Mutex::new(Shared::default()));
+    let sched = SeededScheduler::generate(def, seed, run, run + 1, Cfg::new(), shared.clone());
+    let fail = drive(def, sched, &shared);
+    let tr = shared.lock().unwrap().trace.clone();
+    (tr, fail.unwrap_or_default())
+}
+
+/// Schedule minimisation: truncate the tail (fallback = fixed-seed random choice), zero the draws.
 pub fn minimise(def: &'static ThreadScenDef, cfg: &Cfg, trace: &Trace, prop: &str, oracle: &str, budget: usize) -> Trace {
     let mut tr = trace.clone();
     let mut used = 0;
